@@ -23,8 +23,9 @@ type c08Case struct {
 	Chunks  []int // chunk sizes the reader delivers, cycled; 0 = a (0, nil) read
 	// Source != "": the stream sits in a seekable source (bytes | strings | file) behind Prefix,
 	// which the caller has already consumed when detection starts (a header, an earlier stream)
-	Source string `json:",omitempty"`
-	Prefix []byte `json:",omitempty"`
+	Source      string `json:",omitempty"`
+	Prefix      []byte `json:",omitempty"`
+	EOFWithData bool   `json:",omitempty"` // the reader returns its last bytes together with io.EOF
 }
 
 func runC08Detect(c c08Case) error {
@@ -33,7 +34,7 @@ func runC08Detect(c c08Case) error {
 	if err != nil {
 		return err
 	}
-	var src io.Reader = &vgen.ChunkReader{Data: data, Sizes: c.Chunks}
+	var src io.Reader = &vgen.ChunkReader{Data: data, Sizes: c.Chunks, EOFWithData: c.EOFWithData}
 	if c.Source != "" {
 		all := append(append([]byte(nil), c.Prefix...), data...)
 		switch c.Source {
@@ -108,6 +109,7 @@ func TestC08Detect(t *testing.T) {
 			c.Results[0].Body = bytes.Repeat([]byte{0xA7, 'x', '"', ','}, n/4)
 		}
 		c.Chunks = c08Chunks(t)
+		c.EOFWithData = rapid.IntRange(0, 2).Draw(t, "eofwithdata") == 0
 		if rapid.IntRange(0, 4).Draw(t, "seekable") == 0 {
 			c.Source = rapid.SampledFrom([]string{"bytes", "strings", "file"}).Draw(t, "source")
 			switch rapid.IntRange(0, 2).Draw(t, "prefixkind") {
